@@ -137,9 +137,10 @@ const (
 	NLimit
 	NOst
 	NPrinter
+	NPipe
 )
 
-var KindNames = []string{"filter", "map", "unnest", "lookup_join", "distinct", "limit", "order_sensitive_transform", "batch_printer"}
+var KindNames = []string{"filter", "map", "unnest", "lookup_join", "distinct", "limit", "order_sensitive_transform", "batch_printer", "pipeline"}
 
 type Spec struct {
 	Kind     NodeKind
@@ -154,6 +155,7 @@ type Spec struct {
 	Limit    int64
 	NoRetr   bool
 	Live     bool // printer only: live = true (the default live_table mode); the final frame is observed
+	Pipe     []Spec // NPipe: the stages, bottom (next to the source) first
 }
 
 func coqOptZ(has bool, n int64) string {
@@ -183,6 +185,12 @@ func (s Spec) Coq() string {
 		return "(NLimit " + lib.Z(s.N) + ")"
 	case NOst:
 		return "(NOst " + CoqKeys(s.Keys) + " " + coqOptZ(s.HasLimit, s.Limit) + " " + lib.CoqBool(s.NoRetr) + ")"
+	case NPipe:
+		t := s.Pipe[0].Coq()
+		for _, st := range s.Pipe[1:] {
+			t = "(NPipe " + t + " " + st.Coq() + ")"
+		}
+		return t
 	default:
 		return "(NPrinter " + CoqKeys(s.Keys) + " " + coqOptZ(s.HasLimit, s.Limit) + " " + lib.CoqBool(s.NoRetr) + ")"
 	}
@@ -206,6 +214,12 @@ func (s Spec) JSON() interface{} {
 		m["on"] = fmt.Sprintf("table.col%d = source.col%d", s.A, s.B)
 	case NLimit:
 		m["limit"] = s.N
+	case NPipe:
+		var st []interface{}
+		for _, x := range s.Pipe {
+			st = append(st, x.JSON())
+		}
+		m["stages_bottom_up"] = st
 	case NOst, NPrinter:
 		m["order_by"] = keysJSON(s.Keys)
 		if s.HasLimit {
@@ -224,7 +238,8 @@ type Obs struct {
 	Events   []lib.Event
 	Rows     [][]octosql.Value
 	IsRows   bool
-	Frames   int // printer: number of frames drawn (1 = only the final table)
+	Frames   int  // printer: number of frames drawn (1 = only the final table)
+	Aliased  bool // a produced record's values changed after it was produced
 	Err      error
 	Panicked interface{}
 }
@@ -306,6 +321,12 @@ func (s Spec) BuildNode(src execution.Node) execution.Node {
 		return nodes.NewDistinct(src)
 	case NLimit:
 		return nodes.NewLimit(src, execution.NewConstant(octosql.NewInt(s.N)))
+	case NPipe:
+		n := src
+		for _, st := range s.Pipe {
+			n = st.BuildNode(n)
+		}
+		return n
 	case NOst:
 		es, ms := buildKeys(s.Keys)
 		var limit *execution.Expression
@@ -356,8 +377,83 @@ func (s Spec) RunOver(src execution.Node) (o Obs) {
 		o.Frames = len(frames)
 		return o
 	}
-	o.Events, o.Err, o.Panicked = lib.RunNode(s.BuildNode(src))
+	return RunBuilt(s.BuildNode(src))
+}
+
+// RunBuilt runs an already built node once more and records what it emits.  Every record is copied when it is
+// received (that copy is the observation); the record as handed over (sharing the node's slice) is kept too and
+// compared with the copy when the run is over: a node that rewrites a values slice after producing it would
+// corrupt any consumer that keeps records for later (event-time buffers, join inputs, trees).
+func RunBuilt(n execution.Node) (o Obs) {
+	var raw []execution.Record
+	defer func() {
+		if p := recover(); p != nil {
+			o.Panicked = p
+		}
+	}()
+	ctx := execution.ExecutionContext{}
+	o.Err = n.Run(ctx,
+		func(ctx execution.ProduceContext, record execution.Record) error {
+			vals := make([]octosql.Value, len(record.Values))
+			copy(vals, record.Values)
+			o.Events = append(o.Events, lib.Event{Rec: execution.NewRecord(vals, record.Retraction, record.EventTime)})
+			raw = append(raw, record)
+			return nil
+		},
+		func(ctx execution.ProduceContext, msg execution.MetadataMessage) error {
+			if msg.Type == execution.MetadataMessageTypeWatermark {
+				o.Events = append(o.Events, lib.Event{IsWM: true, WM: msg.Watermark})
+			}
+			return nil
+		})
+	k := 0
+	for _, e := range o.Events {
+		if e.IsWM {
+			continue
+		}
+		r := raw[k]
+		k++
+		if len(r.Values) != len(e.Rec.Values) {
+			o.Aliased = true
+			continue
+		}
+		for i := range r.Values {
+			if lib.CoqValue(r.Values[i]) != lib.CoqValue(e.Rec.Values[i]) {
+				o.Aliased = true
+			}
+		}
+	}
 	return o
+}
+
+// TwoRunSource replays Scripts[0] the first time it is run, Scripts[1] the second time, ... (a node object may be
+// run several times: LookupJoin runs its joined side once per source record).
+type TwoRunSource struct {
+	Scripts [][]lib.Event
+	run     int
+}
+
+func (s *TwoRunSource) Run(ctx execution.ExecutionContext, produce execution.ProduceFn, metaSend execution.MetaSendFn) error {
+	k := s.run
+	if k >= len(s.Scripts) {
+		k = len(s.Scripts) - 1
+	}
+	s.run++
+	return (&lib.ScriptSource{Events: s.Scripts[k]}).Run(ctx, produce, metaSend)
+}
+
+// RunTwice builds the node once over a TwoRunSource and runs the same object twice.
+func (s Spec) RunTwice(a, b []lib.Event) (Obs, Obs) {
+	n := s.BuildNode(&TwoRunSource{Scripts: [][]lib.Event{a, b}})
+	o1 := RunBuilt(n)
+	o2 := RunBuilt(n)
+	return o1, o2
+}
+
+// RunBuffered puts an EventTimeBuffer above the node: a consumer that keeps the records it receives until a
+// watermark (or the end of the stream) releases them.
+func (s Spec) RunBuffered(script []lib.Event) Obs {
+	return RunBuilt(nodes.NewEventTimeBuffer(s.BuildNode(&lib.ScriptSource{Events: script})))
 }
 
 // SlowSource replays a script like lib.ScriptSource but sleeps before the events whose index is in Pause,
